@@ -4,10 +4,22 @@ from harness import pm_prop
 PROPERTY = 'C04'
 LEAN_PROPS = 'PlumpyModel.Props.C04'
 ASSUMPTIONS = pm_prop.ASSUMPTIONS + [
-    'restored configurations: a Bundle taken at every entered-state event of each corpus program is loaded in a fresh loop and '
-    'killed (kill() or cancelling its future) after 0..2 callbacks; the model has no checkpoints, this stream is decided by the '
-    'monitor on the real code alone']
-TRUSTED = pm_prop.TRUSTED
+    'restored configurations (stream restored_kill_stream): (a) a Bundle taken inside the ENTERED callback of every state entry of the '
+    'uninterrupted run of each corpus / random program, (b) a Bundle taken between two callbacks, 0..2 callbacks after a pause() placed '
+    'at any position (processes checkpointed while paused or with the pause still pending inside a step); each is deep-copied at once '
+    '(the bundle as stored: held in memory it shares the mutable context with the instance that keeps running), loaded in a fresh '
+    'DetLoop, optionally played, and killed (kill() or cancelling its future) after 0..2 callbacks, then run dry',
+    'a restored work chain finds fresh pending external futures (the awaited futures are the environment\'s; a bundle cannot carry them, '
+    'and a WAITING work chain cannot be checkpointed at all: C07)',
+    'the model side of a bundle is saveCfg of the configuration at the end of the loop iteration in which the state was entered '
+    '(checkpointAt): in a history without requests nothing a bundle keeps changes between the ENTERED callback and that point; for '
+    'bundles taken between callbacks it is saveCfg of the current configuration',
+]
+TRUSTED = pm_prop.TRUSTED + [
+    'saveCfg / restoreCfg (lean/PlumpyModel/Persist/Plain.lean), restoreCfgN / checkpointAt (Persist/Reload.lean): hand-written image of '
+    'Bundle / load_instance_state / init() in the process-control model, compared with the real restored process after the restore, '
+    'after every op and at quiescence through `pmodel pmr` (lean/Driver/PMRestore.lean)',
+]
 ALPHABET = ['pause', 'play', 'kill', 'resume', 'complete', 'cancelfut', 'fail', 'callsoon ok']
 MONITORS = ['c04', 'c01']
 
@@ -241,8 +253,12 @@ def run(ctx):
     out['divergences'].extend(divs)
     out['evaluations'] += n
     out['traces_validated'] += validated
+    states = {}
+    for rec in records:
+        key = rec['meta']['checkpoint_state'] + (' (between callbacks)' if 'paused_at' in rec['meta'] else ' (entered-state event)')
+        states[key] = states.get(key, 0) + 1
     out['histograms']['restored_kill_stream'] = dict(
-        programs=len(progs), kills_of_restored_processes=n, cases_compared_with_model=validated,
+        programs=len(progs), kills_of_restored_processes=n, cases_compared_with_model=validated, checkpoints_by_state=states,
         observations_compared=ops, divergences=len(divs),
         note='decided by the monitor and compared, after the restore and after every op on the restored process, with the '
              'process-control model started from restoreCfgN (saveCfg c) (`pmodel pmr`, lean/Driver/PMRestore.lean)')
